@@ -8,6 +8,7 @@ import (
 	"path/filepath"
 	"strconv"
 	"strings"
+	"sync"
 	"testing"
 	"unicode"
 	"unicode/utf8"
@@ -290,6 +291,82 @@ func oracleC19History(h c19History) error {
 	return nil
 }
 
+// ---- purity under simultaneous callers: a pure function gives every goroutine the sequential answer ----
+
+type c19Conc struct {
+	Inputs     [][]byte `json:"inputs"`
+	Goroutines int      `json:"goroutines"`
+	Rounds     int      `json:"rounds"`
+}
+
+func genC19Conc(t *rapid.T) c19Conc {
+	c := c19Conc{Goroutines: rapid.SampledFrom([]int{2, 4, 8, 16}).Draw(t, "goroutines"), Rounds: rapid.IntRange(5, 40).Draw(t, "rounds")}
+	if rapid.Bool().Draw(t, "vocab") {
+		c.Inputs = genC19History(t).Inputs
+	} else {
+		n := rapid.IntRange(2, 12).Draw(t, "ninputs")
+		for i := 0; i < n; i++ {
+			c.Inputs = append(c.Inputs, genC19(t).B)
+		}
+	}
+	return c
+}
+
+func oracleC19Conc(c c19Conc) error {
+	n := len(c.Inputs)
+	seq := make([]int, n)
+	for i := range seq {
+		seq[i] = i
+	}
+	var want [][]string
+	if p := ev.Panics(func() { want = c19Convert(c.Inputs, seq) }); p != nil {
+		return fmt.Errorf("sequential conversion of %q panics: %v", inputsAsStrings(c.Inputs), p)
+	}
+	names := []string{"Split"}
+	for _, cv := range c19Converters {
+		names = append(names, cv.name)
+	}
+	errs := make([]error, c.Goroutines)
+	start := make(chan struct{})
+	var wg sync.WaitGroup
+	for g := 0; g < c.Goroutines; g++ {
+		wg.Add(1)
+		go func(g int) {
+			defer wg.Done()
+			defer func() {
+				if p := recover(); p != nil && errs[g] == nil {
+					errs[g] = fmt.Errorf("goroutine %d of %d converting %q panics while the others convert the same inputs: %v", g, c.Goroutines, inputsAsStrings(c.Inputs), p)
+				}
+			}()
+			order := make([]int, n)
+			for i := range order {
+				order[i] = (i + g) % n
+			}
+			<-start
+			for r := 0; r < c.Rounds && errs[g] == nil; r++ {
+				got := c19Convert(c.Inputs, order)
+				for i := range got {
+					for k := range got[i] {
+						if got[i][k] != want[i][k] {
+							errs[g] = fmt.Errorf("%s(%q) = %s when %d goroutines convert %q at the same time, %s when called alone: not a pure function of its input",
+								names[k], c.Inputs[i], got[i][k], c.Goroutines, inputsAsStrings(c.Inputs), want[i][k])
+							return
+						}
+					}
+				}
+			}
+		}(g)
+	}
+	close(start)
+	wg.Wait()
+	for _, e := range errs {
+		if e != nil {
+			return e
+		}
+	}
+	return nil
+}
+
 func inputsAsStrings(in [][]byte) []string {
 	out := make([]string, len(in))
 	for i, b := range in {
@@ -308,7 +385,7 @@ func TestC19(t *testing.T) {
 		Rule: "strings of 0-12 pieces drawn from ASCII words, separators (biased to any position incl. 0), digits, Unicode " +
 			"upper/lower/title-case letters, combining marks, arbitrary runes, raw bytes (invalid UTF-8); non-trivial = first rune is " +
 			"not a letter/digit, or >=3 rune classes (lower/upper/digit/other) are mixed, or the input is invalid UTF-8; distinct by input bytes",
-		Assumptions: []string{"purity is judged by repeated calls (same goroutine, another goroutine, re-export in pkg/gengo) and, in the history sub, by converting the same word-sharing inputs in two fresh processes in opposite orders"},
+		Assumptions: []string{"purity is judged by repeated calls (same goroutine, another goroutine, re-export in pkg/gengo), in the history sub by converting the same word-sharing inputs in two fresh processes in opposite orders, and in the concurrent sub by 2-16 goroutines converting the same inputs simultaneously and comparing with the sequential answers"},
 	})
 	defer r.Finish()
 	ev.Search(r, ev.Sub[c19Case]{
@@ -319,6 +396,11 @@ func TestC19(t *testing.T) {
 		Name: "history", Gen: genC19History, Oracle: oracleC19History,
 		NonTrivial: func(h c19History) bool { return len(h.Inputs) >= 6 },
 		Budget:     ev.Budget{Quick: 150, Thorough: 1500}, MinNonTrivial: 0.3,
+	})
+	ev.Search(r, ev.Sub[c19Conc]{
+		Name: "concurrent", Gen: genC19Conc, Oracle: oracleC19Conc,
+		NonTrivial: func(c c19Conc) bool { return len(c.Inputs) >= 2 && c.Goroutines >= 2 },
+		Budget:     ev.Budget{Quick: 400, Thorough: 6000}, MinNonTrivial: 0.3,
 	})
 }
 
